@@ -1069,7 +1069,10 @@ func (sb *seqbag) LongestORF(reverse bool) (orf Sequence, err error) {
 
 	// log.Print("Longest ORF found in sequence ", bestseq.Name())
 	// log.Print(string(bestseq.SequenceChar()[beststart:bestend]))
-	orf = NewSequence(name, bestseq.SequenceChar()[beststart:bestend], "")
+	// the ORF owns its residues (it must not alias the row of the bag it was found in)
+	orfseq := make([]uint8, bestend-beststart)
+	copy(orfseq, bestseq.SequenceChar()[beststart:bestend])
+	orf = NewSequence(name, orfseq, "")
 	return
 }
 
